@@ -364,52 +364,58 @@ var floatBad = []string{"abc", "", "1e400", "-1e400", "1,5", "1.2.3", " 1", "1 "
 var intOdd = []string{"+5", "007", "-0", "0x10", "0b101", "0o17", "017", "1_000", "0_7", "5.0", "1e3", " 5", "5 ", "", "abc", "12abc", "--1",
 	"99999999999999999999", "-99999999999999999999", "0x", "٣"}
 
-// genValue returns a value string for a leaf of the given prim and whether it is a boundary,
-// out-of-range or malformed one.
-func genValue(r *hx.Rand, prim string) (string, bool) {
+// genValue returns a value string for a leaf of the given prim. With bad it is out of range or
+// malformed for the kind; otherwise representable (typical values and the exact boundaries). The
+// second result says whether the value is a boundary, out-of-range or malformed one.
+func genValue(r *hx.Rand, prim string, bad bool) (string, bool) {
 	k := r.Intn(100)
 	switch prim[0] {
 	case 'i', 'u':
 		rg := intRange[prim]
-		switch {
-		case k < 45:
-			if prim[0] == 'i' && r.Chance(1, 3) {
-				return strconv.Itoa(-r.Intn(100)), false
+		if !bad {
+			switch {
+			case k < 60:
+				if prim[0] == 'i' && r.Chance(1, 3) {
+					return strconv.Itoa(-r.Intn(100)), false
+				}
+				return strconv.Itoa(r.Intn(120)), false
+			case k < 85:
+				return hx.Pick(r, []string{rg[0], rg[1]}), true
+			default:
+				return hx.Pick(r, []string{"+5", "007", "-0", "0"}), true
 			}
-			return strconv.Itoa(r.Intn(120)), false
-		case k < 55:
-			return hx.Pick(r, []string{rg[0], rg[1]}), true
-		case k < 70:
+		}
+		switch {
+		case k < 40:
 			return hx.Pick(r, []string{addOne(rg[0], -1), addOne(rg[1], 1)}), true
-		case k < 80:
+		case k < 65:
 			// a value that fits a wider kind but perhaps not this one
 			return hx.Pick(r, []string{"128", "-129", "255", "256", "300", "32768", "65536", "-32769", "2147483648", "4294967296", "-1", "1000", "70000", "-200"}), true
 		default:
 			return hx.Pick(r, intOdd), true
 		}
 	case 'f':
-		switch {
-		case k < 55:
-			return hx.Pick(r, floatPool), k >= 30
-		case k < 75:
-			return hx.Pick(r, floatOver32), true
-		default:
-			return hx.Pick(r, floatBad), true
+		if !bad {
+			return hx.Pick(r, floatPool), k >= 50
 		}
+		if k < 50 {
+			return hx.Pick(r, floatOver32), true
+		}
+		return hx.Pick(r, floatBad), true
 	case 'b':
-		if k < 75 {
+		if !bad {
 			return hx.Pick(r, boolPool), false
 		}
 		return hx.Pick(r, boolBad), true
 	case 's':
 		return hx.Pick(r, strPool), false
 	case 't':
-		if k < 70 {
+		if !bad {
 			return hx.Pick(r, timePool), false
 		}
 		return hx.Pick(r, timeBad), true
 	case 'd':
-		if k < 70 {
+		if !bad {
 			return hx.Pick(r, durPool), false
 		}
 		return hx.Pick(r, durBad), true
@@ -449,6 +455,8 @@ func genCase(r *hx.Rand) caseT {
 	qf := c.Tag == 0 || c.Tag == 2
 	add := func(k, v string) { c.Src = append(c.Src, [2]string{k, v}) }
 	pPresent := r.Range(3, 9)
+	pBad := hx.Pick(r, []int{0, 0, 0, 3, 3, 10, 10, 25, 50}) // per-leaf chance (percent) of an unrepresentable value
+	genValue := func(r *hx.Rand, prim string) (string, bool) { return genValue(r, prim, r.Chance(pBad, 100)) }
 	for _, lf := range sh.Leaves {
 		if !r.Chance(pPresent, 10) {
 			continue
@@ -1069,6 +1077,16 @@ func fixedCases() []caseT {
 					Src: [][2]string{{lf.Keys[1], "a"}, {lf.Keys[1], "b"}}, NT: true})
 				k++
 			}
+		}
+	}
+	// K04h: a JSON object with two keys under WithMaxMapSize(1)
+	for _, ct := range types {
+		if len(ct.Shapes[0].Leaves) == 0 {
+			continue
+		}
+		if lf := ct.Shapes[0].Leaves[0]; lf.Kind == "map" && lf.Prim[0] == 'i' {
+			out = append(out, caseT{T: ct.E.Name, Tag: 0, Entry: "G", Opts: optsT{-1, -1, 1, false, false}, Src: [][2]string{{lf.Keys[0], `{"a":1,"b":2}`}}, NT: true})
+			break
 		}
 	}
 	// K04e: pointer to slice with a value; K04g: an empty map field under WithMaxMapSize(3);
